@@ -365,6 +365,10 @@ def apply_op(R, g, op, chars):
     elif k == 'copy_layers':
         other = mulgrids.mulgrid().rectangular([10.], [10.], op['dz'], origin=[0., 0., g.layerlist[0].bottom + op.get('top', 0.)], convention=g.convention)
         if len(op['dz']) > geo.layer_capacity(g.convention): return g, None
+        if op.get('top_name'):
+            # the donor's surface layer carries another name than this geometry's
+            nm_ = op['top_name'].rjust(len(other.layerlist[0].name))[:len(other.layerlist[0].name)]
+            if nm_ not in other.layer: other.rename_layer(other.layerlist[0].name, nm_)
         g.copy_layers_from(other)
         g._verif_donor = other         # the geometry the layers were copied from lives on (see 'edit_donor')
     elif k == 'edit_donor':
@@ -476,7 +480,7 @@ def small_alphabet(ncols, max_subset):
     for c in range(3): A.append({'op': 'readd_connection', 'con': c}); A.append({'op': 'delete_connection', 'con': c})
     A += [{'op': 'decompose'}, {'op': 'snap', 'min': 3.0}, {'op': 'snap_nearest'}, {'op': 'add_layer'}, {'op': 'delete_layer'},
           {'op': 'rename_layer', 'lay': 0}, {'op': 'add_well'}, {'op': 'delete_well', 'w': 0}, {'op': 'translate', 'shift': [5., -3., 2.]},
-          {'op': 'rotate', 'angle': 30.}, {'op': 'copy_layers', 'dz': [3., 3., 5., 9.]}, {'op': 'copy_layers', 'dz': [3., 3., 5., 9.], 'top': 6.}, {'op': 'file'}, {'op': 'add_node'},
+          {'op': 'rotate', 'angle': 30.}, {'op': 'copy_layers', 'dz': [3., 3., 5., 9.]}, {'op': 'copy_layers', 'dz': [3., 3., 5., 9.], 'top': 6.}, {'op': 'copy_layers', 'dz': [3., 3., 5., 9.], 'top_name': 'zz'}, {'op': 'translate', 'shift': [0., 0., 2.7]}, {'op': 'file'}, {'op': 'add_node'},
           {'op': 'delete_orphan_node'}]
     A += [{'op': 'add_duplicate', 'what': w, 'i': 0} for w in ('column', 'node', 'layer', 'well', 'connection')]
     A += [{'op': 'edit_donor', 'how': 'translate', 'dz': 7.5}, {'op': 'edit_donor', 'how': 'rename'}, {'op': 'edit_donor', 'how': 'bottom'}]
@@ -526,10 +530,10 @@ def op_strategy():
         st.builds(lambda l, f: {'op': 'refine_layers', 'layers': l, 'factor': f}, few, st.sampled_from([2, 3])),
         st.just({'op': 'add_layer'}), st.just({'op': 'delete_layer'}), st.builds(lambda l: {'op': 'rename_layer', 'lay': l}, i),
         st.just({'op': 'add_well'}), st.builds(lambda w: {'op': 'delete_well', 'w': w}, i),
-        st.builds(lambda x, y, z: {'op': 'translate', 'shift': [x, y, z]}, st.sampled_from([-50., 0., 30.]), st.sampled_from([-20., 10.]), st.sampled_from([-5., 0., 8.])),
+        st.builds(lambda x, y, z: {'op': 'translate', 'shift': [x, y, z]}, st.sampled_from([-50., 0., 30.]), st.sampled_from([-20., 10.]), st.sampled_from([-5., 0., 8., 0.1, 2.7, -0.3])),
         st.builds(lambda a: {'op': 'rotate', 'angle': a}, st.sampled_from([15., 45., 90., -60.])),
-        st.builds(lambda d, t: {'op': 'copy_layers', 'dz': d, 'top': t}, st.lists(st.sampled_from([2., 5., 10.]), min_size=1, max_size=6),
-                  st.sampled_from([0., 0., 5., 12., -5., -12.])),
+        st.builds(lambda d, t, n: {'op': 'copy_layers', 'dz': d, 'top': t, 'top_name': n}, st.lists(st.sampled_from([2., 5., 10.]), min_size=1, max_size=6),
+                  st.sampled_from([0., 0., 5., 12., -5., -12.]), st.sampled_from([None, None, 'zz', 'GS'])),
         st.builds(lambda c: {'op': 'readd_column', 'col': c}, i),
         st.builds(lambda w, n: {'op': 'add_duplicate', 'what': w, 'i': n}, st.sampled_from(['column', 'node', 'layer', 'well', 'connection']), i),
         st.just({'op': 'file'}), st.just({'op': 'add_node'}), st.just({'op': 'delete_orphan_node'}))
